@@ -774,10 +774,10 @@ func (s *State) applyFunction(name string, fn object.Object, args []object.Objec
 	}
 	if after != before {
 		log.Debugf("Cache miss for %s %v, %d get misses", function.CacheKey, args, after-before)
-		// Propagate the can't cache
-		if cantCache {
-			s.env.TriggerNoCache()
-		}
+		// Propagate: the caller's result depends on what the callee read or did outside of its arguments too
+		// (w() calling get() that reads a global must not be served from the cache after the global changed).
+		_ = cantCache
+		s.env.TriggerNoCache()
 		return res
 	}
 	// Don't cache errors, as it could be due to binding for instance.
